@@ -102,6 +102,7 @@ type Config struct {
 }
 
 type Member struct {
+	leftQualityBySkip map[uint64]bool // instances whose QUALITY phase the member left by skipping to a later round
 	effectiveInput map[uint64]*gpbft.ECChain // what the participant proposes when the EC chain handed over was over-long
 	deviant bool // entered instance 0 with a base nobody else has
 	Idx  int
